@@ -78,12 +78,16 @@ where
             ));
         }
 
+        // Whether this commit removes us must be read off the staged commit: after the merge
+        // `own_leaf()` may answer with the leaf of a member the same commit ADDED in our place.
+        let self_removed = staged_commit.self_removed();
+
         mls_group
             .merge_staged_commit(&self.provider, staged_commit)
             .map_err(|_e| Error::Message("Failed to merge staged commit".to_string()))?;
 
         // Check if the local member was removed by this commit
-        if mls_group.own_leaf().is_none() {
+        if self_removed || mls_group.own_leaf().is_none() {
             return self.handle_local_member_eviction(&group_id, event);
         }
 
